@@ -92,5 +92,5 @@ def check_lemmas(path: Path, theorems: dict[str, str], timeout_s: float = 900.0)
             res.append(dict(base, name=obl, ok=False, undecided=True, detail=f"{thm} depends on non-standard axioms {sorted(axioms - STD_AXIOMS)}"))
         else:
             stmt = re.search(rf"theorem {re.escape(thm.split('.')[-1])}\b.*?:=", src, flags=re.S)
-            res.append(dict(base, name=obl, ok=True, detail=f"lean {wall}s; axioms {sorted(axioms)}; " + (" ".join(stmt.group(0).split())[:400] if stmt else "")))
+            res.append(dict(base, name=obl, ok=True, time_s=round(wall / max(1, len(theorems)), 3), detail=f"lean {wall}s; axioms {sorted(axioms)}; " + (" ".join(stmt.group(0).split())[:400] if stmt else "")))
     return res
